@@ -135,9 +135,19 @@ class Object3d:
 
     def __getitem__(self, key) -> Object3d:
         """Return a slice of the object."""
-        data = np.atleast_2d(self.data[key])
+        data = np.atleast_2d(self.data[self._navigation_key(key)])
         obj = self.__class__(data)
         return obj
+
+    @staticmethod
+    def _navigation_key(key) -> tuple:
+        """Return the key extended by a full slice of the last data
+        axis, so that it addresses the navigation axes only and never
+        the components of an element.
+        """
+        if not isinstance(key, tuple):
+            key = (key,)
+        return key + (slice(None),)
 
     def __setitem__(self, key, value: np.ndarray):
         """Set a slice of the data."""
